@@ -595,8 +595,20 @@ def template_match(template, key):
         return True
     if '{}' not in template:
         return False
-    rx = '^' + '.+'.join(re.escape(p) for p in template.split('{}')) + '$'
-    return re.match(rx, key.replace('{}', '0')) is not None
+    # a placeholder stands for a formatted index (digits) or, for swept attribute names of a
+    # network, an identifier followed by an index; it never matches a different fixed key such
+    # as 'points_t' for 'points_{}'
+    rx = '^' + r'(\d+|[A-Za-z_][A-Za-z0-9_]*?_\d+|[A-Za-z_][A-Za-z0-9_]*)'.join(
+        re.escape(p) for p in template.split('{}')) + '$'
+    k2 = key.replace('{}', '0')
+    m = re.match(rx, k2)
+    if m is None:
+        return False
+    # every placeholder of a purely indexed template must have matched digits
+    if all(g.isdigit() for g in m.groups()):
+        return True
+    return not template.replace('{}', '').rstrip('_').isidentifier() or \
+        any(ch.isdigit() for g in m.groups() for ch in g)
 
 
 def _mutable_attrs(prog, cname):
@@ -1024,6 +1036,20 @@ def rule_P4_sampler(ctx, rid='P4', rid6='P6'):
     list_attrs = {e.attr for e in W if e.attr and e.key_args}
     cfg = cfg_of(run)
     add_samples = prog.func('Sampler.add_samples')
+
+    # -- (1b) a dataset that grows is resized to its source before it is overwritten
+    ucfg = cfg_of(ufun)
+    for e in U:
+        if getattr(e, 'op', None) != 'overwrite':
+            continue
+        rs = [r for r in U if getattr(r, 'op', None) == 'resize' and r.key == e.key and
+              ucfg.has(r.node) and ucfg.has(e.node) and
+              ucfg.dominates(ucfg.node_of(r.node).id, ucfg.node_of(e.node).id)]
+        ctx.ob(rid, 'Sampler.write_shell_update:resize-before-overwrite(%s)' % e.key, bool(rs),
+               e.where,
+               'dataset %r is resized on every path before it is overwritten' % e.key if rs else
+               'dataset %r is overwritten without first being resized to the array it receives: '
+               'once the array has grown the update fails or stores a truncated copy' % e.key)
 
     # -- (2) per-batch state
     mut = mutated_attrs(prog, [add_samples], 'Sampler')
@@ -2304,4 +2330,48 @@ def rule_P14(ctx, rid='P14'):
                    % (base, pos, sorted(classes), sorted(generic),
                       unparse(removals[0][1])[:40], removals[0][0].qualname, pos, attr,
                       sorted(generic)[0], base, pos, sorted(classes)[0]))
+    return n
+
+
+# ---------------------------------------------------------------------------
+# P15 what the incremental update rewrites is what changes between checkpoints: the reader
+#     restores every such key
+# ---------------------------------------------------------------------------
+
+def rule_P15(ctx, cname, updater, reader, obj, rid='P15'):
+    ctx.rule(rid, 'updated => restored: every key an incremental update rewrites (the state that '
+             'changes from batch to batch, generator state included) is consumed by the reader '
+             'of the same class')
+    U = writer_table(updater, role='U')
+    R = reader_table(reader, obj)
+    rkeys = {r.key for r in R}
+    n = 0
+    seen = set()
+    for u in U:
+        if '<dyn>' in u.key or u.key in seen:
+            continue
+        seen.add(u.key)
+        ok = u.key in rkeys or any(template_match(u.key, k) or template_match(k, u.key)
+                                   for k in rkeys)
+        n += 1
+        ctx.ob(rid, '%s:restored(%s)' % (cname, u.key), ok, u.where,
+               'key %r is rewritten after every batch and read back on resume' % u.key if ok else
+               'key %r is rewritten after every batch by %s but %s never reads it: the state it '
+               'carries is lost on resume' % (u.key, updater.qualname, reader.qualname))
+    # the generator state must end up in the generator: each rng_* key is read inside the value
+    # assigned to <generator>.bit_generator.state
+    par = _parents(reader.node)
+    for r in R:
+        if not r.key.startswith('rng_'):
+            continue
+        p = r.node
+        while p is not None and not isinstance(p, ast.stmt):
+            p = par.get(id(p))
+        ok = isinstance(p, ast.Assign) and len(p.targets) == 1 and \
+            unparse(p.targets[0]).endswith('bit_generator.state')
+        n += 1
+        ctx.ob(rid, '%s:generator-state(%s)' % (cname, r.key), ok, r.where,
+               'key %r is restored into the bit generator\'s state' % r.key if ok else
+               'key %r is read but not assigned into `<rng>.bit_generator.state`: the resumed '
+               'sampler continues with a different random stream' % r.key)
     return n
